@@ -146,6 +146,11 @@ fn event_json(ev: &wax::verif::Event, strip: &Path) -> Value {
 
 /// path relative to the scratch directory of the scenario, as text ("" for the scratch dir itself)
 fn rel_text(p: &Path, strip: &Path) -> Value {
+    // a relative path is relative to the scratch directory (scenarios with a relative base run there)
+    if p.is_relative() && !p.as_os_str().is_empty() {
+        let r: PathBuf = p.components().filter(|c| !matches!(c, std::path::Component::CurDir)).collect();
+        return json!({"in": true, "p": cps(&r.to_string_lossy())});
+    }
     match p.strip_prefix(strip) {
         Ok(r) => json!({"in": true, "p": cps(&r.to_string_lossy())}),
         Err(_) => json!({"in": false, "p": cps(&p.to_string_lossy())}),
@@ -271,9 +276,16 @@ pub fn run_scenario(sc: &Value, top: &Path) -> Value {
     let walked = node_path(&nodes, top, sc["walk_from"].as_u64().unwrap_or(1) as usize);
     // how the base directory is spelled
     let spelling = sc["base"].as_str().unwrap_or("abs");
+    // "rel" / "reldot": relative to the current directory, which becomes the scratch directory of the scenario
+    // (scenarios run one after the other): `root/a` and `./root/a`
+    if spelling == "rel" || spelling == "reldot" {
+        std::env::set_current_dir(top).expect("chdir to the scratch directory");
+    }
     let base: PathBuf = match spelling {
         "trailing" => PathBuf::from(format!("{}/", walked.display())),
         "dot" => walked.join("."),
+        "rel" => walked.strip_prefix(top).expect("walked beneath top").to_path_buf(),
+        "reldot" => Path::new(".").join(walked.strip_prefix(top).expect("walked beneath top")),
         _ => walked.clone(),
     };
     let link = if sc["follow"].as_bool().unwrap_or(false) { LinkBehavior::ReadTarget } else { LinkBehavior::ReadFile };
